@@ -140,8 +140,18 @@ def inject_faults(ch, script, g, ended, netlistable):
                 pos = ch.rint(0, seams.DEFAULT_NPASSES, "pos")
             block.append(["fault", "boundary", pos, offender, 0, label])
         elif kind == "mid":
-            base = ch.pick(["ArrayFlattener", "BundleFlattener", "InstBundleElabPass"], "midbase")
-            block.append(["fault", "mid", base, None, ch.rint(1, 3, "nth"), label])
+            # a rewriting pass that has something to rewrite in this hierarchy, if there is one
+            have = []
+            for m_ in hier:
+                mm = design.mods[m_]
+                if any(i_["kind"] == "arr" for i_ in mm.insts.values()):
+                    have.append("ArrayFlattener")
+                if any(i_["kind"] == "pair" for i_ in mm.insts.values()):
+                    have.append("InstBundleElabPass")
+                if mm.buns:
+                    have.append("BundleFlattener")
+            base = ch.pick(have or ["ArrayFlattener", "BundleFlattener", "InstBundleElabPass"], "midbase")
+            block.append(["fault", "mid", base, None, ch.weighted([(3, 1), (2, 2), (1, 3)], "nth"), label])
             offender = None
         else:
             planted = plant_width_fault(ch, out[:at], design, hier, fno)
@@ -599,6 +609,14 @@ def run(scn):
                     offenders |= bad_mods
                     refusable |= {x for x in hier if bad_mods & hierarchy(d_now, [x])}
                 first_error.setdefault(key, exc)
+    for op in raw_ops:
+        if op[0] == "reinst":
+            res["faults"]["continuation:parent_edited_after_failure"] = 1
+        if op[0] == "module" and isinstance(op[2], str) and op[2].startswith("NP"):
+            res["faults"]["continuation:new_parent_after_failure"] = res["faults"].get("continuation:new_parent_after_failure", 0) + 1
+        if op[0] == "sig" and str(op[2]).startswith("wrong"):
+            res["faults"]["configured:planted_width_fault"] = res["faults"].get("configured:planted_width_fault", 0) + 1
+    res["faults"]["failed_calls"] = failed_calls
     res["faults"]["sessions_with_failure"] = 1 if failed_calls else 0
     res["faults"]["sessions_fault_free"] = 0 if failed_calls else 1
     shared = sum(1 for t, n in touched.items() if n >= 2)
